@@ -1,5 +1,7 @@
 import Pokerface.Proofs.View
+import Pokerface.Proofs.GapsBView
 import Pokerface.Generated.Facts
+import Pokerface.Generated.Tables
 /-
   C15 — Player and observer views never leak hidden cards.
 
@@ -214,7 +216,8 @@ theorem secretCards_view (g : Game) (v : Viewer) : secretCards (g.view v) v = []
     by `secretCards_view` those fields are empty.  Cards of the deck list that have been dealt
     face up — board, the viewer's own cards, cards shown at the close — are public and do
     of course occur in the public fields; that a hidden card never equals a public one is the
-    no-duplicates part of C14.) -/
+    no-duplicates part of C14.  The statement about ALL card fields of the view, public ones included,
+    is `hidden_card_nowhere_in_view` / `hidden_card_nowhere_in_observer_view` below.) -/
 theorem no_hidden_card_in_view (g : Game) (v : Viewer) (c : Card) (_h : HiddenCard g v c) :
     c ∉ secretCards (g.view v) v := by
   rw [secretCards_view]; exact List.not_mem_nil
@@ -428,4 +431,168 @@ example : exRunning.view (some 0) = exRunning'.view (some 0) :=
 
 end Examples
 
+/-! ## No hidden card in ANY card field of a view (public fields included)
+
+`no_hidden_card_in_view` above only looks at the fields the redaction blanks.  The theorems of this
+section look at EVERY card-valued field of the state prepared for a viewer — the public ones
+included — and use that the cards of a real hand are all different (C14) and that a reported
+combination is made of its owner's hole cards and of board cards (the enumeration of C10 only picks
+among the cards it is given: `combOwn_reachable`, Proofs/GapsBComb.lean).
+
+Card-valued fields of `Game` (by `parts_cover` every field is in `publicPart` or `secretPart`; the
+only component of `publicPart` whose type mentions `Card` is `board`):
+`opts.deck`, `burned`, `board`, `players[].hole`, `players[].comb.cards` — collected in `cardFields`. -/
+
+/-- Card `c` is hidden from viewer `v` in state `g`: it is in the UNDEALT rest of the deck (below the
+    cursor `deckPos`), or burned, or a hole card of a player whose record the view rules hide from
+    `v` (`Hidden g v p`: not the viewer's own record, and the hand is not closed or `p` folded — i.e.
+    during the hand every other player, after the close the folded other players). -/
+def HiddenFrom (g : Game) (v : Viewer) (c : Card) : Prop :=
+  c ∈ g.opts.deck.drop g.deckPos ∨ c ∈ g.burned ∨ ∃ p ∈ g.players, Hidden g v p ∧ c ∈ p.hole
+
+instance (g : Game) (v : Viewer) (c : Card) : Decidable (HiddenFrom g v c) := by
+  unfold HiddenFrom; infer_instance
+
+/-- Every card stored anywhere in a state: deck list, burned cards, board, and every player's hole
+    cards and reported combination cards. -/
+def cardFields (g : Game) : List Card :=
+  g.opts.deck ++ g.burned ++ g.board ++ g.players.flatMap fun p => p.hole ++ combCards p
+
+/-- **A hidden card occurs nowhere in the state prepared for a viewer** (player or observer).
+    `g` is any state reached by any sequence of operations from a successfully started hand whose
+    deck is duplicate-free and long enough (`ReachableC`, the domain of C14 — any seat count, any
+    rule, any hole-card count, any ranking table); `v` is a seat or the observer; `c` is hidden
+    from `v` (`HiddenFrom`).  Then `c` is not in the view's deck list, not among its burned cards,
+    NOT ON ITS BOARD, in NO player's hole cards as shown in the view (own cards, cards shown after
+    the close) and in NO player's reported combination as shown in the view (the viewer's own
+    combination and the combinations of shown players contain only their owners' hole cards and
+    board cards — `combOwn_reachable` —, none of which is hidden). -/
+theorem hidden_card_nowhere (g : Game) (h : ReachableC g) (v : Viewer) (c : Card) (hc : HiddenFrom g v c) :
+    c ∉ (g.view v).opts.deck ∧ c ∉ (g.view v).burned ∧ c ∉ (g.view v).board ∧
+    ∀ q ∈ (g.view v).players, c ∉ q.hole ∧ c ∉ combCards q := by
+  rw [view_eq_blank]
+  obtain ⟨h1, h2, h3, h4⟩ := hidden_nowhere_in_blank (cinv_reachable h).core (combOwn_reachable h) v c hc
+  refine ⟨h1, h2, h3, fun q hq => ⟨(h4 q hq).1, ?_⟩⟩
+  unfold combCards
+  cases hqc : q.comb with
+  | none => simp
+  | some cb => simpa using (h4 q hq).2 cb hqc
+
+/-- **`hidden_card_nowhere_in_view`** — the statement for `AsPlayer(i)`: no card hidden from seat
+    `i` (undealt, burned, or a hole card of another player who is still hidden: everybody else
+    during the hand, the folded others after the close) occurs in any card field of `g.asPlayer i`. -/
+theorem hidden_card_nowhere_in_view (g : Game) (h : ReachableC g) (i : Nat) (c : Card)
+    (hc : HiddenFrom g (some i) c) :
+    c ∉ (g.asPlayer i).opts.deck ∧ c ∉ (g.asPlayer i).burned ∧ c ∉ (g.asPlayer i).board ∧
+    ∀ q ∈ (g.asPlayer i).players, c ∉ q.hole ∧ c ∉ combCards q :=
+  hidden_card_nowhere g h (some i) c hc
+
+/-- **`hidden_card_nowhere_in_observer_view`** — the statement for `AsObserver()`: no card hidden
+    from an observer (undealt, burned, or a hole card of anybody during the hand / of a folded
+    player after the close) occurs in any card field of `g.asObserver`. -/
+theorem hidden_card_nowhere_in_observer_view (g : Game) (h : ReachableC g) (c : Card) (hc : HiddenFrom g none c) :
+    c ∉ g.asObserver.opts.deck ∧ c ∉ g.asObserver.burned ∧ c ∉ g.asObserver.board ∧
+    ∀ q ∈ g.asObserver.players, c ∉ q.hole ∧ c ∉ combCards q :=
+  hidden_card_nowhere g h none c hc
+
+/-- The same in one line: a hidden card is not among the cards stored anywhere in the view. -/
+theorem hidden_card_not_in_cardFields (g : Game) (h : ReachableC g) (v : Viewer) (c : Card)
+    (hc : HiddenFrom g v c) : c ∉ cardFields (g.view v) := by
+  obtain ⟨h1, h2, h3, h4⟩ := hidden_card_nowhere g h v c hc
+  simp only [cardFields, List.mem_append, List.mem_flatMap, not_or, not_exists, not_and]
+  exact ⟨⟨⟨h1, h2⟩, h3⟩, fun q hq => ⟨(h4 q hq).1, (h4 q hq).2⟩⟩
+
+/-- The facts about the state the theorem rests on, for reference: in every reachable state the
+    published combination of every seat is made of that seat's own hole cards and of board cards
+    (any rule, any table). -/
+theorem combination_cards_are_own (g : Game) (h : ReachableC g) :
+    ∀ p ∈ g.players, ∀ x ∈ combCards p, x ∈ p.hole ∨ x ∈ g.board := by
+  intro p hp x hx
+  unfold combCards at hx
+  cases hpc : p.comb with
+  | none => rw [hpc] at hx; simp at hx
+  | some cb => rw [hpc] at hx; exact combOwn_reachable h p hp cb hpc x (by simpa using hx)
+
+/-! ### Non-vacuity: a real three-seat hand on a 26-card deck -/
+section ReachableExamples
+
+/-- 26 cards: spades 2…A, then hearts 2…A -/
+def rDeck : List Card :=
+  ((List.range 13).map fun r => (⟨83, r + 2⟩ : Card)) ++ ((List.range 13).map fun r => (⟨72, r + 2⟩ : Card))
+
+def rMeta : Meta :=
+  { ante := 0, blindDealer := 0, blindSB := 5, blindBB := 10, potLimit := false, holeCount := 2, required := 0,
+    lvl := Generated.combinationLevel, table := Generated.powerStandard, deck := rDeck }
+
+/-- dealer, small blind, big blind with 100 chips each -/
+def rCfg : Config :=
+  { opts := rMeta, seats := [⟨100, true, false, false⟩, ⟨100, false, true, false⟩, ⟨100, false, false, true⟩] }
+
+theorem rReach (ops : List Op) : ReachableC ((start rCfg).1.run ops) :=
+  ⟨rCfg, ops, ⟨⟨by decide, by decide, by decide, by decide⟩⟩, ⟨by decide, by decide⟩, by decide, rfl⟩
+
+/-- to the flop: the dealer calls, the small blind folds, the big blind checks -/
+def rToFlop : List Op := [.ready, .payBlinds, .ready, .act none .call 0, .act none .fold 0, .act none .check 0, .next]
+/-- a street on which the folded small blind passes and the two others check -/
+def rStreet : List Op := [.ready, .act none .pass 0, .act none .check 0, .act none .check 0]
+def rToClose : List Op := rToFlop ++ rStreet ++ [.next] ++ rStreet ++ [.next] ++ rStreet ++ [.next]
+
+def gFlop : Game := (start rCfg).1.run rToFlop
+def gClose : Game := (start rCfg).1.run rToClose
+
+set_option maxRecDepth 100000
+
+theorem gFlop_facts : gFlop.event = .readyRequested ∧ gFlop.deckPos = 10 ∧ gFlop.opts.required = 0 ∧ gFlop.opts.holeCount = 2 ∧
+    gFlop.players.map (fun p => (p.idx, p.fold, p.hole)) =
+      [(0, false, [⟨83, 2⟩, ⟨83, 3⟩]), (1, true, [⟨83, 4⟩, ⟨83, 5⟩]), (2, false, [⟨83, 6⟩, ⟨83, 7⟩])] ∧
+    gFlop.burned = [⟨83, 8⟩] ∧ gFlop.board = [⟨83, 9⟩, ⟨83, 10⟩, ⟨83, 11⟩] := by decide
+
+theorem gClose_facts : gClose.event = .gameClosed ∧ gClose.deckPos = 14 ∧ gClose.opts.required = 0 ∧ gClose.opts.holeCount = 2 ∧
+    gClose.players.map (fun p => (p.idx, p.fold, p.hole)) =
+      [(0, false, [⟨83, 2⟩, ⟨83, 3⟩]), (1, true, [⟨83, 4⟩, ⟨83, 5⟩]), (2, false, [⟨83, 6⟩, ⟨83, 7⟩])] ∧
+    gClose.burned = [⟨83, 8⟩, ⟨83, 12⟩, ⟨83, 14⟩] ∧
+    gClose.board = [⟨83, 9⟩, ⟨83, 10⟩, ⟨83, 11⟩, ⟨83, 13⟩, ⟨72, 2⟩] := by decide
+
+/-- `HiddenFrom` is satisfiable in a REACHABLE state, by each of its three clauses: on the flop the
+    undealt Q♠, the burned 8♠ and seat 2's 6♠ are hidden from seat 0 … -/
+theorem gFlop_hidden : HiddenFrom gFlop (some 0) ⟨83, 12⟩ ∧ HiddenFrom gFlop (some 0) ⟨83, 8⟩ ∧
+    HiddenFrom gFlop (some 0) ⟨83, 6⟩ ∧ HiddenFrom gFlop none ⟨83, 2⟩ := by
+  decide
+
+/-- … so the theorem applies (all hypotheses hold) and says they are nowhere in seat 0's view … -/
+example : (⟨83, 6⟩ : Card) ∉ cardFields (gFlop.view (some 0)) :=
+  hidden_card_not_in_cardFields gFlop (rReach rToFlop) (some 0) _ gFlop_hidden.2.2.1
+
+/-- … which, computed independently, holds exactly the viewer's own cards, the board, and the cards of
+    the viewer's own combination (a subset of these). -/
+example : cardFields (gFlop.asPlayer 0) =
+    [⟨83, 9⟩, ⟨83, 10⟩, ⟨83, 11⟩, ⟨83, 2⟩, ⟨83, 3⟩, ⟨83, 11⟩, ⟨83, 10⟩, ⟨83, 9⟩, ⟨83, 3⟩, ⟨83, 2⟩] := by decide
+
+/-- After the close the folded seat 1 stays hidden from seat 0 and from the observer, seat 2 is shown:
+    4♠ (seat 1) is hidden, 6♠ (seat 2) is not — and does occur in the view. -/
+theorem gClose_hidden : HiddenFrom gClose (some 0) ⟨83, 4⟩ ∧ HiddenFrom gClose none ⟨83, 4⟩ ∧
+    ¬ HiddenFrom gClose (some 0) ⟨83, 6⟩ ∧ (⟨83, 6⟩ : Card) ∈ cardFields (gClose.asPlayer 0) ∧
+    ¬ HiddenFrom gClose (some 1) ⟨83, 4⟩ := by
+  decide
+
+example : (⟨83, 4⟩ : Card) ∉ cardFields gClose.asObserver :=
+  hidden_card_not_in_cardFields gClose (rReach rToClose) none _ gClose_hidden.2.1
+
+/-- The no-duplicates hypothesis (inside `ReachableC`) is essential: on a deck that contains 9♠
+    twice, the undealt copy is "hidden" yet the same card lies on the board. -/
+example : let g := (start { rCfg with opts := { rMeta with deck := rDeck ++ [⟨83, 9⟩] } }).1.run rToFlop
+    HiddenFrom g (some 0) ⟨83, 9⟩ ∧ (⟨83, 9⟩ : Card) ∈ (g.asPlayer 0).board := by
+  decide
+
+end ReachableExamples
+
 end Pokerface.C15
+
+section Axioms
+open Pokerface.C15
+#print axioms hidden_card_nowhere
+#print axioms hidden_card_nowhere_in_view
+#print axioms hidden_card_nowhere_in_observer_view
+#print axioms hidden_card_not_in_cardFields
+#print axioms combination_cards_are_own
+end Axioms
